@@ -31,6 +31,7 @@ type Contract struct {
 	NoPanic   bool // explicit panics are obligations (default true); false: panics are allowed exits
 	AllowPanic bool
 	NoFrame    bool
+	Fuel       int
 	Wakes      []Clause
 	Props     []string
 	File      string
@@ -196,6 +197,14 @@ func (cs *ContractSet) LoadContractFile(path, pkgPath string) error {
 			cur, curLemma, curFnSpec = nil, nil, nil
 			curType = &TypeInv{Pkg: pkgPath, Type: strings.TrimSpace(rest)}
 			cs.TypeInvs[pkgPath+"."+curType.Type] = curType
+		case "fuel":
+			if cur != nil {
+				n, err := strconv.Atoi(strings.TrimSpace(rest))
+				if err != nil {
+					return fail(ll.line, "bad fuel")
+				}
+				cur.Fuel = n
+			}
 		case "noframe":
 			if cur != nil {
 				cur.NoFrame = true
